@@ -18,7 +18,7 @@ import AsyncsshModel.Gen.C08
     * F2  `sender_spins_zero_pktsize_old`   — a peer advertising maximum packet size 0 made `_flush_send_buf` spin
     * F3  `receiver_window_exceeded_while_paused_old` — while reading was paused the advertised window was not enforced
 
-  Three more (audit findings D2, D3, D4; repairs b98700f, 9fcdbb2, 6aa4f78), outside the byte-level endpoint the
+  Three more (audit findings D2, D3, D4; repairs e7dbee0, afe8b9e, 9f86e20), outside the byte-level endpoint the
   theorems above are about — in `SSHServerChannel`, in the text layer and in `SSHTunTapChannel`
   (`Model/ChannelVariants.lean`, `Model/ChannelDecode.lean`); the model follows the repaired code, the behaviour
   before the repairs is kept in the `…PreFix` definitions with witness theorems:
@@ -263,13 +263,13 @@ theorem pause_honoured_prop (c c' : Chan) (ev : Ev) (ms : List Msg) (os : List O
     dataOuts os = [] ∧ (ev ≠ .close → c'.recvPaused ≠ .no) :=
   pause_honoured hw hp h1 h2 h
 
-/-- **Tie to the code** (repair b98700f): the only thing outside the events of the model that called
+/-- **Tie to the code** (repair e7dbee0): the only thing outside the events of the model that called
     `resume_reading()` — a `shell` / `exec` / `subsystem` request answered with success, `_report_response` — can
     happen once per channel: `_start_session` refuses the request once a session was started -/
 theorem second_session_request_refused :
     Gen.C08.secondSessionRequestRefused = true ∧ Gen.C08.sessionRequestResumesReading = true := by decide
 
-/-- **D2 — witness for the code BEFORE repair b98700f**: reading paused by the application, 3 bytes buffered (the
+/-- **D2 — witness for the code BEFORE repair e7dbee0**: reading paused by the application, 3 bytes buffered (the
     peer may keep sending up to the window, then must stop: that is the back-pressure); the peer's second `shell`
     request delivers the buffer and leaves reading resumed — from then on everything the peer sends is handed to
     (and, with the stream API, buffered without limit by) a session that is not reading -/
@@ -282,7 +282,7 @@ theorem second_session_request_ended_pause_preFix :
 /-! ### no protocol error out of the text layer once the application closed (D3) -/
 
 open AsyncsshModel.ChannelCodec in
-/-- **No ProtocolError after the application's `close()`** (since repair 9fcdbb2): on a text channel, whatever the
+/-- **No ProtocolError after the application's `close()`** (since repair afe8b9e): on a text channel, whatever the
     decoders hold when the application closes, nothing the peer sends afterwards — in particular its EOF and its
     CLOSE, which an honest peer MUST send — raises a decode error. -/
 theorem no_protocol_error_after_local_close (tc : TChan) (hw : WF tc.c) (hr : tc.c.recvState ≠ .closed)
@@ -311,7 +311,16 @@ theorem no_protocol_error_after_local_close (tc : TChan) (hw : WF tc.c) (hr : tc
     split at hst' <;> cases hst'
 
 open AsyncsshModel.ChannelCodec in
-/-- **D3 — witness for the code BEFORE repair 9fcdbb2**: "€€" cut as `E2 82 AC E2 | 82 AC`, the application closes
+/-- **Tie to the code**: `_discard_recv` resets the decoders (one per data type) and `_flush_recv_buf` runs the final
+    decode on every one of them, as the translator finds them — the variant of the text layer the theorem above is
+    about -/
+theorem text_layer_variant_is_the_code :
+    Variant.now = { perType := Gen.C08.decoderPerDatatype, resetOnDiscard := Gen.C08.discardResetsDecoders } ∧
+    Gen.C08.finalDecodeAllDecoders = true := by
+  decide
+
+open AsyncsshModel.ChannelCodec in
+/-- **D3 — witness for the code BEFORE repair afe8b9e**: "€€" cut as `E2 82 AC E2 | 82 AC`, the application closes
     after the first packet, the honest peer sends the rest and its EOF: decode error → `ProtocolError` → the
     connection is closed.  Now: no error. -/
 theorem honest_eof_after_close_midchar_fatal_preFix :
@@ -323,7 +332,7 @@ theorem honest_eof_after_close_midchar_fatal_preFix :
 
 /-! ### layer-3 tunnel channels: the stripped address family is accounted (D4) -/
 
-/-- **Tunnel accounting** (since repair 6aa4f78): accepting a tunnel packet of `n` bytes on the wire lowers what
+/-- **Tunnel accounting** (since repair 9f86e20): accepting a tunnel packet of `n` bytes on the wire lowers what
     the receiver still allows the peer to send (`_recv_window - _recv_buf_len`, the quantity the window check uses)
     by exactly `n` and raises it by the WINDOW_ADJUST sent — the sender subtracted the same `n` from its send
     window, so the receiver replenishes the window whenever the sender's view of it falls below half. -/
@@ -332,7 +341,7 @@ theorem tun_receiver_accounting (c : Chan) (data : Bytes) (dt : DType) (hs : c.s
     credit (tunAcceptData c data dt).1 = credit c - data.length + adjustSum (tunAcceptData c data dt).2.1 :=
   tun_accept_accounting c data dt hs ho
 
-/-- **D4 — witness for the code BEFORE repair 6aa4f78**: 4 bytes per packet are never given back -/
+/-- **D4 — witness for the code BEFORE repair 9f86e20**: 4 bytes per packet are never given back -/
 theorem tun_window_leak_preFix (c : Chan) (data : Bytes) (dt : DType) (hs : c.sendState = .opn)
     (ho : c.sendChanOpen = true) (hl : 4 ≤ data.length) :
     credit (tunAcceptDataPreFix c data dt).1 =
